@@ -42,6 +42,15 @@ MNext ==
            /\ Len(hist) >= NProcs /\ ~Ready
            /\ LET p == CHOOSE q \in 1..NProcs : Pending(q) # {} /\ \A r \in 1..NProcs : Pending(r) # {} => q <= r IN
               \E d \in Pending(p) : TakeM(MStep("RegMig", p, 1, E, d, E))
+        \/ \* 2a. a process may use its type between two of its registrations (slot 3) ...
+           /\ Len(hist) >= NProcs /\ ~Ready /\ IsNil(slots[3])
+           /\ LET p == CHOOSE q \in 1..NProcs : Pending(q) # {} /\ \A r \in 1..NProcs : Pending(r) # {} => q <= r IN
+              /\ LinksTy(p) /\ Pending(p) # Decl(KindOf(p))
+              /\ TakeM(MStep("MkLocal", p, 3, E, <<"w3">>, <<<<LocalTy(p)>>>>))
+        \/ \* 2b. ... and looks at it again once all its renames are registered
+           /\ Len(hist) >= NProcs /\ ~IsNil(slots[3]) /\ ScenarioPos = 1
+           /\ Pending(procs.own[3]) = {}
+           /\ TakeM(MStep("Probe", procs.own[3], 3, E, E, E))
         \/ \* 2'. registering the same target twice is rejected
            /\ Dup /\ Ready /\ ScenarioPos = 0
            /\ ~\E i \in 1..Len(hist) : hist[i].op = "RegMig" /\ \E j \in 1..(i-1) : hist[j] = hist[i]
